@@ -149,7 +149,7 @@ func Digest(st stateReader, logs []*types.Log, universe []common.Address, slots 
 		if ch == crypto.Keccak256Hash(nil) {
 			ch = common.Hash{}
 		}
-		fmt.Fprintf(&sb, "%x:b=%s,n=%d,c=%x,s=%v", a[18:], bal, nonce, ch[:4], st.HasSuicided(a))
+		fmt.Fprintf(&sb, "%x:b=%s,n=%d,c=%x,s=%v", a, bal, nonce, ch[:4], st.HasSuicided(a))
 		for _, s := range slots {
 			v := st.GetState(a, s)
 			if v != (common.Hash{}) {
@@ -158,6 +158,9 @@ func Digest(st stateReader, logs []*types.Log, universe []common.Address, slots 
 		}
 		sb.WriteByte('\n')
 	}
+	// StateDB.Logs() ranges over a map keyed by transaction: order by log index
+	logs = append([]*types.Log(nil), logs...)
+	sort.Slice(logs, func(i, j int) bool { return logs[i].Index < logs[j].Index })
 	fmt.Fprintf(&sb, "logs=%d", len(logs))
 	for _, l := range logs {
 		fmt.Fprintf(&sb, ";%x|%x|%x", l.Address[18:], l.Topics, l.Data)
@@ -236,6 +239,7 @@ type ArtelaOpts struct {
 	Slots         []common.Hash
 	NoTxEvents    bool
 	NoRoot        bool // skip IntermediateRoot (keeps the journal intact)
+	ExtraAddrs    []common.Address // additional accounts to observe after each invocation
 	JPOverride    *bool // force join points on/off for all invocations
 	NullTracer    bool  // install a do-nothing debug tracer (debug mode without recording)
 	// DigestAt, if set, is evaluated at every transfer / can-transfer wrapper call
@@ -333,6 +337,15 @@ func RunArtela(sc *Scenario, opt ArtelaOpts) *ArtelaRun {
 
 	out := &ArtelaRun{Rec: rec, EVM: evm, State: st}
 	universe := sc.Universe()
+	for _, a := range opt.ExtraAddrs {
+		dup := false
+		for _, b := range universe {
+			dup = dup || a == b
+		}
+		if !dup {
+			universe = append(universe, a)
+		}
+	}
 	for i := range sc.Invs {
 		inv := &sc.Invs[i]
 		evm.TxContext.Origin = inv.Origin
